@@ -107,7 +107,12 @@ def run_case(case, ctx):
     ctx.cls("x_dtype=" + xdtype)
     ctx.cls("classifier" if clf else "regressor")
     K = "C08/%s/" % ("classifier" if clf else "regressor")
-    Xin = pandas.DataFrame(X, columns=["f%d" % i for i in range(d)]) if frame else X
+    from vrt import layouts
+    lay = layouts.pick(sub, 4)
+    via = (sub // 5) % 4 == 0
+    cfg["layout"], cfg["configured_with"] = lay, "set_params" if via else "constructor"
+    ctx.cls("layout=" + lay)
+    Xin = pandas.DataFrame(X, columns=["f%d" % i for i in range(d)]) if frame else layouts.relayout(X, lay)
     # targets / weights as pandas Series whose integer index is a permutation of the positions (columns of
     # df.sample(frac=1)): selection by position and selection by label differ there
     ycont = ["ndarray", "ndarray", "ndarray", "series-shuffled-index", "ndarray", "series-default-index"][(sub // 3) % 6]
@@ -120,11 +125,20 @@ def run_case(case, ctx):
         win = None if w is None else pandas.Series(w, index=ix)
 
     def new(n_jobs):
+        # 'bins' / 'tree' are spellings the constructor resolves into estimator objects: through set_params the
+        # binner is given as the object get_params would report
+        from sklearn.preprocessing import KBinsDiscretizer as _KB
+        b = _KB() if (via and isinstance(binner, str)) else binner
         if clf:
-            return PiecewiseClassifier(binner=binner, estimator=probes.RecClassifier(base=base, tag="local"),
-                                       n_jobs=n_jobs, random_state=rs)
-        return PiecewiseRegressor(binner=binner, estimator=probes.RecRegressor(base=base, tag="local"),
-                                  n_jobs=n_jobs)
+            return layouts.build(PiecewiseClassifier, dict(
+                binner=b, estimator=probes.RecClassifier(base=base, tag="local"), n_jobs=n_jobs,
+                random_state=rs), via, dict(binner=DecisionTreeClassifier(max_depth=1),
+                                            estimator=probes.RecClassifier(base="dummy-clf", tag="decoy"),
+                                            n_jobs=3, random_state=rs + 1))
+        return layouts.build(PiecewiseRegressor, dict(
+            binner=b, estimator=probes.RecRegressor(base=base, tag="local"), n_jobs=n_jobs), via,
+            dict(binner=DecisionTreeRegressor(max_depth=1), estimator=probes.RecRegressor(base="dummy-reg", tag="decoy"),
+                 n_jobs=3))
 
     def fit(m):
         numpy.random.seed(rs)
